@@ -1,0 +1,119 @@
+//! Verification runtime (only compiled with `--cfg prometheus_verif`).
+//!
+//! One source of nondeterminism for harnesses and shims: under Kani every draw is a
+//! `kani::any()`, natively it is read from a recorded tape (the values Kani's concrete
+//! playback printed for a counterexample), so that the very same code path is replayed
+//! against the natively compiled library.
+#![allow(missing_docs, dead_code, static_mut_refs)]
+
+#[cfg(not(kani))]
+mod tape {
+    use std::cell::RefCell;
+    thread_local! {
+        pub static TAPE: RefCell<(Vec<Vec<u8>>, usize)> = RefCell::new((Vec::new(), 0));
+    }
+    pub fn next(n: usize) -> Vec<u8> {
+        TAPE.with(|t| {
+            let mut t = t.borrow_mut();
+            let i = t.1;
+            if i >= t.0.len() {
+                panic!("REPLAY-DIVERGED: tape exhausted at draw {}", i);
+            }
+            if t.0[i].len() != n {
+                panic!(
+                    "REPLAY-DIVERGED: draw {} wants {} bytes, tape has {}",
+                    i,
+                    n,
+                    t.0[i].len()
+                );
+            }
+            t.1 += 1;
+            t.0[i].clone()
+        })
+    }
+}
+
+/// Load a tape for native replay.
+#[cfg(not(kani))]
+pub fn set_tape(t: Vec<Vec<u8>>) {
+    tape::TAPE.with(|c| *c.borrow_mut() = (t, 0));
+}
+/// Number of draws consumed / available (native replay).
+#[cfg(not(kani))]
+pub fn tape_pos() -> (usize, usize) {
+    tape::TAPE.with(|c| {
+        let c = c.borrow();
+        (c.1, c.0.len())
+    })
+}
+
+macro_rules! draw {
+    ($name:ident, $t:ty, $n:expr) => {
+        #[cfg(kani)]
+        #[inline(always)]
+        pub fn $name() -> $t {
+            kani::any()
+        }
+        #[cfg(not(kani))]
+        pub fn $name() -> $t {
+            let b = tape::next($n);
+            let mut a = [0u8; $n];
+            a.copy_from_slice(&b);
+            <$t>::from_le_bytes(a)
+        }
+    };
+}
+draw!(any_u8, u8, 1);
+draw!(any_u16, u16, 2);
+draw!(any_u32, u32, 4);
+draw!(any_u64, u64, 8);
+draw!(any_i64, i64, 8);
+draw!(any_usize, usize, 8);
+
+#[cfg(kani)]
+#[inline(always)]
+pub fn any_f64() -> f64 {
+    kani::any()
+}
+#[cfg(not(kani))]
+pub fn any_f64() -> f64 {
+    let b = tape::next(8);
+    let mut a = [0u8; 8];
+    a.copy_from_slice(&b);
+    f64::from_bits(u64::from_le_bytes(a))
+}
+#[cfg(kani)]
+#[inline(always)]
+pub fn any_bool() -> bool {
+    kani::any()
+}
+#[cfg(not(kani))]
+pub fn any_bool() -> bool {
+    tape::next(1)[0] != 0
+}
+
+/// `kani::assume`; natively a violated assumption means the replay left the recorded path.
+#[cfg(kani)]
+#[inline(always)]
+pub fn assume(b: bool) {
+    kani::assume(b)
+}
+#[cfg(not(kani))]
+pub fn assume(b: bool) {
+    if !b {
+        panic!("REPLAY-DIVERGED: assumption violated");
+    }
+}
+
+/// Reachability witness (`kani::cover!`); natively prints the label when hit.
+#[cfg(kani)]
+#[inline(always)]
+pub fn cover(b: bool, _what: &'static str) {
+    kani::cover!(b);
+}
+#[cfg(not(kani))]
+pub fn cover(b: bool, what: &'static str) {
+    if b {
+        eprintln!("COVER-HIT: {}", what);
+    }
+}
